@@ -589,6 +589,11 @@ def execute(spec, fault, bump):
 
     # ---------------- normal return: remaining oracles -------------------------------------
     out["exit"] = "returned"
+    if fault is not None and state["fault_fired"]:
+        # An absorbed, injected BadInitialization makes one evaluation look infinitely bad although its point
+        # is fine; "no worse than the start" is a statement about true objective values, so the value oracles
+        # are evaluated on fault-free executions only (side effects and bounds were checked above / below).
+        return out
     if state["bad_objective"] is not None:
         violate("objective_not_the_documented_sum", kind, state["bad_objective"])
     if hist:
